@@ -223,7 +223,7 @@ func EquivalentCopy(t *rapid.T, v *V) *V {
 }
 
 // neighbours of a number: last-bit / off-by-one changes
-func numNeighbour(t *rapid.T, v *V) *V {
+func numNeighbour(t *rapid.T, v *V, wide bool) *V {
 	r := new(big.Rat).Set(v.N)
 	switch rapid.IntRange(0, 3).Draw(t, "nn") {
 	case 0:
@@ -236,6 +236,12 @@ func numNeighbour(t *rapid.T, v *V) *V {
 		r.Neg(r)
 		if r.Sign() == 0 {
 			r.SetInt64(1)
+		}
+	}
+	if !wide {
+		// keep the value exactly representable in float64
+		if f, exact := r.Float64(); !exact {
+			r.SetFloat64(f)
 		}
 	}
 	return NumRat(r)
@@ -260,7 +266,7 @@ func mutateNode(t *rapid.T, n *V, o Opts) {
 		if rapid.IntRange(0, 3).Draw(t, "mk") == 0 {
 			*n = *genLeaf(t, o)
 		} else {
-			*n = *numNeighbour(t, n)
+			*n = *numNeighbour(t, n, o.Wide)
 		}
 	case Str:
 		switch rapid.IntRange(0, 3).Draw(t, "mk") {
